@@ -1002,14 +1002,31 @@ func TestDrive(t *testing.T) {
 	for i := 0; i < nrand; i++ {
 		scs = append(scs, genTx(r, 40))
 	}
+	// the output is written in parts of at most ~partLines lines, cut at scenario boundaries
+	// (<out>, <out>.1, <out>.2 ...): the monitor reads a whole file into memory
+	const partLines = 60000
+	part, lines := 0, 0
+	acts := map[string]int{}
 	rec := chain.NewRecorder(t, out)
+	flush := func() {
+		rec.Close()
+		lines += rec.N
+		for k, v := range rec.Acts {
+			acts[k] += v
+		}
+	}
 	for i, sc := range scs {
 		if i%nshard != shard {
 			continue
 		}
+		if rec.N >= partLines {
+			flush()
+			part++
+			rec = chain.NewRecorder(t, out+"."+strconv.Itoa(part))
+		}
 		runScenario(t, rec, i, sc, seed)
 	}
-	rec.Close()
-	stats, _ := json.Marshal(map[string]any{"lines": rec.N, "scenarios": len(scs), "acts": rec.Acts})
+	flush()
+	stats, _ := json.Marshal(map[string]any{"lines": lines, "scenarios": len(scs), "acts": acts, "parts": part + 1})
 	fmt.Println("DRIVER-STATS " + string(stats))
 }
